@@ -5,7 +5,7 @@ GO_TEST = "TestVerifC18"
 RUN_MODULE = "Run_C18"
 COQ_TARGETS = ["Corr/Run_C18.vo", "Proofs/KeyspaceBase.vo", "Proofs/KeyspaceProofs.vo", "Proofs/KeyspaceAlloc.vo",
                "Proofs/KeyspaceCovered.vo", "Proofs/KeyspaceTrie.vo", "Proofs/KeyspaceSubtract.vo",
-               "Proofs/KeyspaceCoalesce.vo", "Proofs/KeyspaceNext.vo", "Proofs/KeyspaceGaps.vo",
+               "Proofs/KeyspaceCoalesce.vo", "Proofs/KeyspaceNext.vo", "Proofs/KeyspaceGaps.vo", "Proofs/KeyspaceGapsOrder.vo",
                "Proofs/KeyspaceRegions.vo", "Proofs/KeyspaceAssign.vo", "Proofs/KeyspaceRemove.vo"]
 # N bounds the number of case indices (replay by index); campaign sizes derive from N/20 (see the harness).
 N = {"quick": 3000, "thorough": 20000}
@@ -121,6 +121,6 @@ LEVEL_TEXT = ("Theorems in coq/Props/C18.v hold for ALL well-formed tries, keys,
               "ShortestCoveredPrefix (F12). AddMany/Add keep tries well formed. Every run compares the real functions with the model and with "
               "the definitions, exhaustively over prefix-free sets of strings of length <= 3 in the thorough tier.")
 LEVEL_NOTE = ("Proofs are about the Gallina transcription; the tie to the Go code is the correspondence run (differential, bounded by the generator). "
-              "Not proved (checked by correspondence only): the order of TrieGaps' result and sortBitstrKeysByOrder; absence of panic of "
+              "Not proved (checked by correspondence only): absence of panic of "
               "KeyspaceCovered on non-tiling tries; Remove/shrink; the helpers (SiblingPrefixes, ExtendBinaryPrefix, FirstFullKeyWithPrefix, "
               "KeyToBytes, FlipLastBit) are their own definitions. Known finding: TrieGaps with a non-empty target (F13).")
